@@ -38,7 +38,7 @@ func (c14) Plan(tier string, seed int64) []mon.Workload {
 	if tier == "thorough" {
 		n = 6000
 	}
-	return []mon.Workload{{Name: "v1", N: n}, {Name: "v2", N: n}}
+	return []mon.Workload{{Name: "v1", N: n, CaseTimeoutS: 60}, {Name: "v2", N: n, CaseTimeoutS: 60}}
 }
 
 var c14Spins = []func() *gt.T{
